@@ -16,7 +16,7 @@ use crate::bridge::*;
 use crate::gen::{generate, GenCfg};
 use crate::interp::REvent;
 use crate::layout::{layout_value, Tree};
-use crate::rng::fnv64;
+use crate::rng::{fnv64, Rng};
 use crate::tracemachine::Event;
 
 /// Hidden CMRs of all `assertl` / `assertr` nodes of a commit program.
@@ -56,6 +56,17 @@ pub fn run(cx: &mut Ctx) {
             break;
         }
         cx.begin_case(i);
+        if i % 40 == 13 {
+            let mut rng = cx.rng(&[i, 14]);
+            match many_sites_program(cx, &mut rng) {
+                Ok(p) => {
+                    cx.report.count("programs_with_over_256_tracked_calls", (p.calls.values().filter(|n| n.is_tracked()).count() > 256) as u64);
+                    judge_program(cx, p, rng);
+                }
+                Err(e) => cx.report.harness_error(json!({"what": e})),
+            }
+            continue;
+        }
         one_program(cx, i);
     }
 }
@@ -77,6 +88,31 @@ fn one_program(cx: &mut Ctx, i: u64) {
             return;
         }
     };
+    judge_program(cx, p, rng);
+}
+
+/// A straight-line `main` with several hundred tracked call sites of every kind, all of which
+/// are reached at run time (marker identity must hold beyond any small table or counter width).
+fn many_sites_program(cx: &mut Ctx, rng: &mut Rng) -> Result<Prepared, String> {
+    use super::mini::*;
+    let n = 140 + rng.below(if cx.thorough { 700 } else { 260 });
+    let mut stmts = vec![];
+    let lit = |k: usize| Expr::Int(((k * 37 + 11) % 65536).to_string());
+    for k in 0..n {
+        stmts.push(match rng.below(5) {
+            0 => assert_(Expr::jet("eq_16", vec![lit(k), lit(k)])),
+            1 => let_(&format!("a{k}"), Ty::U(16), Expr::call(CallName::Dbg, vec![lit(k)])),
+            2 => let_(&format!("b{k}"), Ty::U(16), Expr::call(CallName::Unwrap, vec![Expr::Some_(Box::new(lit(k)))])),
+            3 => let_(&format!("c{k}"), Ty::U(16), Expr::call(CallName::UnwrapLeft(Ty::U(8)), vec![Expr::Left(Box::new(lit(k)))])),
+            _ => let_(&format!("d{k}"), Ty::U(16), Expr::call(CallName::UnwrapRight(Ty::Bool), vec![Expr::Right(Box::new(lit(k)))])),
+        });
+    }
+    let prog = Program { items: vec![main_fn(stmts)], holes: vec![] };
+    let style = if rng.chance(1, 2) { Style::plain() } else { Style::random(rng) };
+    prepared_from(cx, prog, vec![], vec![], WMap::new(), WMap::new(), &style)
+}
+
+fn judge_program(cx: &mut Ctx, p: Prepared, mut rng: Rng) {
     let text = p.text().to_string();
     let key = fnv64(text.as_bytes());
     let Some(plain) = build_or_report(cx, &p, false, false) else { return };
